@@ -15,6 +15,7 @@ use std::{
 
 pub mod net_shim;
 pub mod tokio_shim;
+pub mod watch_shim;
 
 /// Decides which spawned task may make its next step.
 /// Installed per thread by the simulation harness.
